@@ -9,6 +9,13 @@ from ..core import LEAN
 from ..gen import gen_periodic
 
 LEVEL = 'proof'
+LEVEL_TEXT = ('Every clause is a universally quantified theorem over the complete finite domain (118 elements x all tabulated '
+              'isotopes x charges -4..4 x H 0..6/unknown), proved by kernel evaluation over tables regenerated from /repo on '
+              'every run; the public API is additionally exercised exhaustively on the live classes. Proof is the right level '
+              'because the domain is finite and the model is the data itself.')
+LEVEL_NOTE = ('Lean kernel; gen_periodic translator (evaluates the property bodies of the Element subclasses and parses the two '
+              '.pyx literal tables); Spec/Iupac.lean written by hand; floats compared as micro-units.')
+TECHNIQUE = 'Lean 4 decide +kernel theorems over regenerated periodic-table data + exhaustive API correspondence'
 HAS_DRIVER = False
 FINDINGS_MODULE = 'ChythonModel.Findings.C18'
 RULE = ('exhaustive: every Element subclass x every tabulated isotope x charge -4..4 x radical flag x every predicate '
